@@ -2,11 +2,15 @@ package c10
 
 import (
 	"context"
+	"database/sql"
 	"fmt"
 	"os"
 	"strings"
 	"testing"
 
+	"github.com/jdillenkofer/pithos/internal/storage"
+	"github.com/jdillenkofer/pithos/internal/storage/database"
+	"github.com/jdillenkofer/pithos/internal/storage/metadatapart"
 	"github.com/jdillenkofer/pithos/verifharness/dump"
 	"github.com/jdillenkofer/pithos/verifharness/ev"
 	"github.com/jdillenkofer/pithos/verifharness/inject"
@@ -226,6 +230,13 @@ func runCase(env *ev.Env, c Case) (o ev.Outcome) {
 			return
 		}
 		after, err := dumpOf(inst2)
+		missing := ""
+		if err == nil {
+			missing = referencedPartsMissing(inst2)
+			if missing == "" {
+				missing = completePendingUploads(inst2)
+			}
+		}
 		inst2.Close()
 		os.RemoveAll(dir)
 		if err != nil {
@@ -244,6 +255,10 @@ func runCase(env *ev.Env, c Case) (o ev.Outcome) {
 			o.Failf("after crash at %s in %s (%s) and restart, listed objects are not readable: %v", pt, c.Victim.Kind, c.Stack, bad)
 			return
 		}
+		if missing != "" {
+			o.Failf("after crash at %s in %s (%s) and restart: %s", pt, c.Victim.Kind, c.Stack, missing)
+			return
+		}
 		dBefore, dClean := dump.Diff(before, after), dump.Diff(clean, after)
 		if len(dBefore) > 0 && len(dClean) > 0 {
 			o.Failf("after crash at %s in %s (%s) and restart the state is neither the state before nor the state after the operation:\n vs before: %v\n vs after: %v", pt, c.Victim.Kind, c.Stack, dBefore, dClean)
@@ -256,6 +271,91 @@ func runCase(env *ev.Env, c Case) (o ev.Outcome) {
 		}
 	}
 	return
+}
+
+// referencedPartsMissing checks that every part id the metadata references (objects and
+// pending uploads) exists in one of the configured stores.
+func referencedPartsMissing(inst *stacks.Instance) string {
+	ms := metadatapart.VerifMetadataStore(inst.Storage)
+	db := metadatapart.VerifDatabase(inst.Storage)
+	stores := metadatapart.VerifNamedStores(inst.Storage)
+	msg := ""
+	err := database.WithTx(context.Background(), db, &sql.TxOptions{ReadOnly: true}, func(ctx context.Context, tx database.Tx) error {
+		live, err := ms.GetInUsePartIdCounts(ctx, tx.SqlTx())
+		if err != nil {
+			return err
+		}
+		have := map[string]bool{}
+		for _, st := range stores {
+			ids, err := st.GetPartIds(ctx, tx)
+			if err != nil {
+				return err
+			}
+			for _, id := range ids {
+				have[id.String()] = true
+			}
+		}
+		for id := range live {
+			if !have[id.String()] {
+				msg = fmt.Sprintf("part %s is referenced by the metadata (object or pending upload) but is in no part store", id.String())
+				return nil
+			}
+		}
+		return nil
+	})
+	if err != nil {
+		return "cannot check referenced parts: " + err.Error()
+	}
+	return msg
+}
+
+// completePendingUploads completes every pending upload that survived the crash and reads the
+// result: what the API shows as an upload with parts must be usable.
+func completePendingUploads(inst *stacks.Instance) string {
+	ctx := context.Background()
+	st := inst.Storage
+	buckets, err := st.ListBuckets(ctx)
+	if err != nil {
+		return "ListBuckets: " + err.Error()
+	}
+	for _, b := range buckets {
+		res, err := st.ListMultipartUploads(ctx, b.Name, storage.ListMultipartUploadsOptions{MaxUploads: 1000})
+		if err != nil {
+			return "ListMultipartUploads: " + err.Error()
+		}
+		for _, u := range res.Uploads {
+			lp, err := st.ListParts(ctx, b.Name, u.Key, u.UploadId, storage.ListPartsOptions{MaxParts: 1000})
+			if err != nil {
+				return "ListParts: " + err.Error()
+			}
+			var want int64
+			ok := len(lp.Parts) > 0
+			for i, p := range lp.Parts {
+				if int(p.PartNumber) != i+1 {
+					ok = false
+				}
+				want += p.Size
+			}
+			if !ok {
+				continue
+			}
+			if _, err := st.CompleteMultipartUpload(ctx, b.Name, u.Key, u.UploadId, nil, nil); err != nil {
+				return fmt.Sprintf("pending upload of %s/%s (parts listed) cannot be completed: %v", b.Name, u.Key, err)
+			}
+			_, readers, err := st.GetObject(ctx, b.Name, u.Key, nil, nil)
+			if err != nil {
+				return fmt.Sprintf("object completed from the surviving upload of %s/%s cannot be opened: %v", b.Name, u.Key, err)
+			}
+			body, err := prog.ReadAll(readers)
+			if err != nil {
+				return fmt.Sprintf("object completed from the surviving upload of %s/%s is not readable: %v", b.Name, u.Key, err)
+			}
+			if int64(len(body)) != want {
+				return fmt.Sprintf("object completed from the surviving upload of %s/%s has %d bytes, parts listed %d", b.Name, u.Key, len(body), want)
+			}
+		}
+	}
+	return ""
 }
 
 // isBackupLoss recognises the mechanism of KF-C10-1: parts renamed to *.txbackup.* by a
